@@ -21,6 +21,10 @@ CHECKS = {
             "TLA+ specs RtmpPacket.tla (packet layouts over AMF0, sizes, dispatch function) and RtmpTxn.tla (outstanding-request table, typed waits) model-checked by TLC; TLC-enumerated packet matrix and histories replayed into real rtmp.Protocol endpoints with the pending table compared after every step",
             "TLC checks MatchOnce/OnePerTid on every history of sends, peer items, decodes and typed waits within the bounds (and shows a lookup-without-delete deviation violates it); the full packet matrix (all kinds, optional fields, 65536 user-control event types) is enumerated with the specification's layout/size/dispatch kind and every packet and every history (about 25k quick) is executed by the real code: marshal = layout, Size() exact, unmarshal equal, peer decodes to the protocol's type, transaction table equal to the model's after each step, typed waits return the first match",
             "trusts TLC, the LD expander, the verif export shim (pending table) and the transcription of RTMP 1.0 sections 5.4/7.1/7.2; command objects from a small family", "5/C03"),
+    "C04": ("model_checking",
+            "TLA+ spec RtmpTxnConc.tla (writer/reader/peer processes; register-before-write) model-checked by TLC over all interleavings; TLC schedules forced onto the real code with a gated transport; free-running -race executions validated as traces against Trace_RtmpTxnConc.tla",
+            "TLC explores every interleaving of the writer's steps, the peer's (possibly duplicated) responses and the reader's read/lookup for up to 3 requests (NoSpurious, MatchOnce, NoLoss; the register-after-write deviation yields the 5-step counterexample); every schedule is forced deterministically onto a real rtmp.Protocol (gates, no sleeps) and each lookup outcome compared; recorded free-running executions under the race detector are accepted by the trace specification only if a registration point before the transport write explains every lookup result; a corrupted trace is shown to be rejected",
+            "trusts TLC, the gated transport and the event log order (log and peer writes under one mutex); register/transport-write entry and read/lookup are adjacent in forced schedules; stress covers the runtime's interleavings over seeds", "5/C04"),
     "C09": ("model_checking",
             "TLA+ spec FlvFile.tla: mux/transport/demux state machine with byte-level reference decoder, TLC invariants and two named deviations; TLC-generated files and seeded walks replayed into the flv muxer/demuxer, layout from the spec as oracle",
             "TLC explores every interleaving of muxer calls, segment deliveries and demuxer calls for all flag combinations and small tag lists (Layout, RefDec, Prefix, Final, Framing, Monotone); the boundary matrix (sizes to 2^24-1, timestamps around 2^24/2^32-1) is enumerated and each file is replayed: library bytes must equal the specification's byte for byte, and the demuxer must return the same tags from library-written and spec-written bytes under whole/1-byte/random segmentation",
